@@ -54,7 +54,8 @@ def cases(draw, max_nodes):
         # a bundled progress display whose output sink fails persistently (unwritable report file): whatever the
         # display does about it, run still returns and the display's thread has exited
         case["sched"] = draw(harness.schedules(det_only=True))
-        case["failing_sink"] = draw(st.sampled_from(["always", "after_first"]))
+        # ("never": the sink works - the display must still stop when the run ends, whatever the calls raised)
+        case["failing_sink"] = draw(st.sampled_from(["always", "after_first", "never"]))
     elif draw(st.integers(0, 5)) == 0:
         # the OS refuses to start the k-th thread run asks for (thread / pid limit)
         case["sched"] = draw(harness.schedules(det_only=True))
@@ -124,7 +125,7 @@ def check_case(ctx, case, record=True):
 
     def failing_output(data):
         sink_calls[0] += 1
-        if sink == "always" or sink_calls[0] > 1:
+        if sink == "always" or (sink == "after_first" and sink_calls[0] > 1):
             raise OSError(28, "injected: cannot write the progress report")
 
     def thunk():
@@ -144,7 +145,10 @@ def check_case(ctx, case, record=True):
         from vlib import detsched
         # the display's update thread runs on the model threading too (its timed waits fire at the scheduler's
         # discretion); a display that keeps retrying a dead sink shows up as divergence / a thread that never exits
-        xkw = {"extra": [(spo, "threading", detsched.MODEL)], "max_steps": 300_000}
+        # (step budget: fault-free cases of this family need at most ~2e4 steps at <= 8 nodes; a display thread that
+        # never stops renders on every step, so the smaller budget keeps such a case within the wall-clock watchdog)
+        xkw = {"extra": [(spo, "threading", detsched.MODEL)] + ([(spo, "time", detsched.FakeTime())] if hasattr(spo, "time") else []),
+               "max_steps": 60_000 if sink == "never" and len(spec["nodes"]) <= 8 else 300_000}
     out = harness.execute(thunk, sc, after=after, **xkw)
     if sink:
         # the update thread dying of the sink's own error is the display's business, not a leak of run
@@ -167,7 +171,7 @@ def check_case(ctx, case, record=True):
         if fired:
             cl.append("thread_start_refused")
         if sink:
-            cl.append("failing_display_sink:" + sink)
+            cl.append(("failing_display_sink:" if sink != "never" else "display_sink:") + sink)
         if dup:
             cl.append("one_store_several_source_nodes" + ("+mt_query_fails" if dup["mt_fails"] else ""))
         if case.get("tcycle"):
